@@ -25,15 +25,15 @@ VIEW_QUICK = ['k_view_axis_views_3', 'k_view_axis_views_2x3x2', 'k_view_axis_ite
 VIEW_THOROUGH = ['k_view_axis_views_2x3', 'k_view_axis_views_2x1', 'k_view_axis_views_3x1x2', 'k_view_axis_views_2x1x2x3',
                  'k_view_axis_iter_2x3x2']
 INDEX_QUICK = ['k_index_bijection_2x3', 'k_index_bijection_1', 'k_index_iter_indices_1x3', 'k_index_get_2x3', 'k_index_get_2x3_len1', 'k_index_get_2x3_len3',
-               'k_index_iter_indices_4']
+               'k_index_iter_indices_4', 'k_index_bijection_2x2x2x2x2']
 INDEX_THOROUGH = ['k_index_bijection_1x2x2', 'k_index_iter_indices_1x1x2', 'k_index_bijection_5', 'k_index_bijection_3x1', 'k_index_bijection_2x3x2', 'k_index_bijection_3x1x4',
-                  'k_index_bijection_2x1x2x3', 'k_index_bijection_5x4x9x2', 'k_index_bijection_2x2x2x2x2',
+                  'k_index_bijection_2x1x2x3', 'k_index_bijection_5x4x9x2',
                   'k_index_get_4', 'k_index_get_4_len0', 'k_index_get_4_len2', 'k_index_get_2x1x3', 'k_index_get_2x2x2x2',
                   'k_index_iter_indices_2x3', 'k_index_iter_indices_3x1x2', 'k_index_iter_indices_2x2x1x2']
 DECODERS = ['k_npy_decode_f4', 'k_npy_decode_f8', 'k_npy_decode_i1', 'k_npy_decode_i2', 'k_npy_decode_i4', 'k_npy_decode_i8',
             'k_npy_decode_u1', 'k_npy_decode_u2', 'k_npy_decode_u4', 'k_npy_decode_u8']
-FOLD_QUICK = ['k_fold_5', 'k_fold_4', 'k_fold_1x3']
-FOLD_THOROUGH = ['k_fold_1', 'k_fold_2x4', 'k_fold_3x4', 'k_fold_3x3', 'k_fold_2x3x2', 'k_fold_2x2x2', 'k_fold_3x1x1x2']
+FOLD_QUICK = ['k_fold_5', 'k_fold_4', 'k_fold_1x3', 'k_fold_1']
+FOLD_THOROUGH = ['k_fold_2x4', 'k_fold_3x4', 'k_fold_3x3', 'k_fold_2x3x2', 'k_fold_2x2x2', 'k_fold_3x1x1x2']
 SITE_NOPROJ = ['k_site_noproj_abn_c0', 'k_site_noproj_abn_c2', 'k_site_noproj_aab_c1', 'k_site_noproj_aab_c2', 'k_site_noproj_baa_c0', 'k_site_noproj_nba_c1']
 SITE_PROJDEC = ['k_site_projdec_aab_c0_to22', 'k_site_projdec_aab_c2_to42', 'k_site_projdec_aab_c1_to20', 'k_site_projdec_baa_c1_to02', 'k_site_projdec_nba_c0_to22']
 SITE_PROJVAL = ['k_site_projval_aab_to21', 'k_site_projval_baa_to12', 'k_site_projval_aab_to02']
@@ -90,6 +90,10 @@ KANI_META.update({
     'k_stat_monomorphic_1d': K('bounded', 'shapes [4], [5]; monomorphic cells over all f64 bit patterns', ['Theta<Watterson/Tajima>', 'D<Tajima/FuLi>', 'Scs::segregating_sites']),
     'k_stat_monomorphic_2d': K('bounded', 'shapes [3,3], [2,4]; monomorphic cells over all f64 bit patterns', ['PiXY', 'King', 'R0', 'R1', 'Scs::segregating_sites']),
     'k_stat_s_sum_pixy_definition': K('bounded', 'shape [3,4], integer-valued cells', ['Spectrum::sum', 'Scs::segregating_sites', 'PiXY::from_spectrum']),
+    'k_stat_theta_pi_definition': K('bounded', 'count spectra with 3, 4, 5 chromosomes, one concrete table each, tolerance 1e-9; utils::binomial stubbed by its table', ['Theta<Watterson>::from_spectrum', 'Theta<Tajima>::from_spectrum', 'Estimator::estimate_unchecked', 'utils::harmonic']),
+    'k_stat_f2_fst_definition': K('bounded', 'one normalised 3x4 table and its transpose, tolerance 1e-9; f64::powi stubbed by repeated multiplication', ['F2::from_sfs', 'Fst::from_sfs', 'FrequenciesIter::next', 'Spectrum::into_normalized']),
+    'k_stat_f3_definition': K('bounded', 'one normalised 2x3x3 table, tolerance 1e-9; Array::sum stubbed by its contract, f64::powi by repeated multiplication', ['F3::from_sfs', 'F2::from_sfs', 'Spectrum::marginalize', 'FrequenciesIter::next']),
+    'k_stat_f4_definition': K('bounded', 'one normalised 2x3x2x2 table, tolerance 1e-9', ['F4::from_sfs', 'FrequenciesIter::next']),
 })
 KANI_META.update(meta_for(SITE_NOPROJ, 'bounded', '3 input columns, 2 populations; column->population table and the results of two columns fixed per harness (in its name: table, symbolic column); the third column takes every genotype::Result incl. Error; pre-state: non-zero counts/totals and either a stale skipped entry or an empty skipped list (the two kinds of reachable pre-state alternate over the family)',
                           ['site::Reader::read_site', 'site::Reader::reset', 'Count::set_zero']))
@@ -162,10 +166,10 @@ REGISTRY = {
     'C06': {
         'title': 'statistics equal their definitions on genotypes and the published estimators',
         'level': 'model_checking',
-        'kani_quick': ['k_stat_king_r0_r1_definition', 'k_stat_s_sum_pixy_definition'],
-        'kani_thorough': [],
-        'assumptions': [A_PMF, A_FLOATSUM, A_BIN],
-        'not_decided': ['f2, f3, f4, Fst (inexact frequencies i/(n-1)), Watterson, pi, Tajima D, Fu-Li D (binomial through exp/ln, harmonic sums, sqrt): no order-independent exact postcondition; genotype-level reading of all 14 (composition with create)'],
+        'kani_quick': ['k_stat_king_r0_r1_definition', 'k_stat_s_sum_pixy_definition', 'k_stat_theta_pi_definition'],
+        'kani_thorough': ['k_stat_f2_fst_definition', 'k_stat_f3_definition', 'k_stat_f4_definition'],
+        'assumptions': [A_PMF, A_FLOATSUM, A_BIN, 'f64::powi(x, 2) = x * x (stub in the f2/Fst/f3 harnesses: CBMC\'s powi model is not exact)'],
+        'not_decided': ['f2, f3, f4, Fst, Watterson, pi beyond one concrete table per harness (symbolic f64 cells do not finish; BOUNDED stand-ins with tolerance 1e-9 only)', 'Tajima D, Fu-Li D (sqrt, binomial through exp/ln): only totality (C17) and independence of the monomorphic cells (C14)', 'genotype-level reading of all 14 (composition with create)'],
     },
     'C07': {
         'title': 'spectrum files round-trip through text and npy; the tool reads what it writes',
@@ -209,9 +213,9 @@ REGISTRY = {
         'title': 'statistics are invariant under the transformations that must not matter',
         'level': 'model_checking',
         'kani_quick': ['k_stat_king_r0_r1_definition', 'k_stat_monomorphic_1d'],
-        'kani_thorough': ['k_stat_monomorphic_2d'],
-        'assumptions': [A_PMF, A_FLOATSUM],
-        'not_decided': ['f3/f4 as combinations of f2 of marginals, invariance under folding, general positive scale factors, f2/Fst/pi_xy swap symmetry (real-number identities that do not hold bitwise in f64)'],
+        'kani_thorough': ['k_stat_monomorphic_2d', 'k_stat_f2_fst_definition', 'k_stat_f3_definition'],
+        'assumptions': [A_PMF, A_FLOATSUM, 'f64::powi(x, 2) = x * x (stub in the f2/Fst/f3 harnesses)'],
+        'not_decided': ['f4 as a combination of f2 of marginals, invariance under folding, general positive scale factors, pi_xy swap symmetry; f3 = (f2+f2-f2)/2 and f2/Fst swap symmetry only on one concrete table each up to 1e-9 (real-number identities that do not hold bitwise in f64)'],
     },
     'C15': {
         'title': 'npy output conforms to NPY 1.0; every supported numpy dtype is read exactly',
